@@ -229,6 +229,19 @@ def check(ctx):
                                  "log_prob(state) + log_correction", ok_ratio,
                    detail=f"log ratio is {short(L)}", stmt="log ratio " + pretty(L),
                    facts={"log_ratio": short(L, 300)})
+            if ok_ratio:
+                # floating point: the two log-densities are of the same (possibly huge)
+                # magnitude, the correction is O(1) -- adding it to ONE of them first
+                # rounds it away.  The statement's order is (difference) + correction.
+                diff_first = any(
+                    t[0] == "op" and sorted(_flatten_sum(t), key=repr)
+                    == sorted([(1, prop_lp[0]), (-1, cur_lp[0])], key=repr)
+                    for t in subterms(L))
+                ctx.ob("C05.R1", fi, "the log-density DIFFERENCE is formed first and the "
+                                     "correction added to it (adding the O(1) correction to "
+                                     "one large log-density first loses it to rounding)",
+                       diff_first, detail=f"log ratio is {short(L)}",
+                       stmt="log ratio order " + pretty(L))
             # the guarded value (#0) feeds exp, the code (#1) feeds the info
             guarded_val = ("proj", gterm, 0)
             expg = ("call", ("g", "jax.numpy.exp"), (guarded_val,), ())
